@@ -1081,3 +1081,282 @@ theorem set_eq_spec (l : HList) (k v : Str) (hv : hasNL v = false) :
     | false => simp [specSet, ha]
 
 end Wz.C08L
+
+/-! ### Headers: the abstract spec (ordered (key, value) list with case-insensitive keys) -/
+namespace Wz.HdrSpec
+open Wz Hdr Wz.C08L
+
+/-- the abstract state: the ordered list of `(key, value)` pairs; keys compare ignoring case -/
+abbrev Spec := List (Str × Str)
+
+/-- the three documented atomic actions on the pair list -/
+inductive Act where
+  /-- append a pair -/
+  | add (k v : Str)
+  /-- replace the first pair of the key in place, drop its other pairs; append when absent -/
+  | set (k v : Str)
+  /-- drop every pair of the key -/
+  | remove (k : Str)
+deriving Repr, DecidableEq
+
+/-- an atomic action; a value containing CR or LF is refused and nothing changes -/
+def Act.apply (l : Spec) : Act → Spec × Except String Unit
+  | .add k v => if hasNL v then (l, .error "ValueError") else (l ++ [(k, v)], .ok ())
+  | .set k v => if hasNL v then (l, .error "ValueError") else (specSet l k v, .ok ())
+  | .remove k => (l.filter (fun p => !keyEq k p), .ok ())
+
+/-- perform the actions in order, stopping at the first refusal (what was done stays) -/
+def seqUntil (l : Spec) : List Act → Spec × Except String Unit
+  | [] => (l, .ok ())
+  | a :: t =>
+    match a.apply l with
+    | (l', .ok _) => seqUntil l' t
+    | (l', .error e) => (l', .error e)
+
+/-- `setlist(k, vs)`: the key ends up with exactly the values `vs` -/
+def setlistActs (k : Str) : List Str → List Act
+  | [] => [.remove k]
+  | v :: t => .set k v :: t.map (.add k)
+
+/-- a mapping argument: scalars are `set`, lists are `setlist` -/
+def mapActs : MapArg → List Act
+  | [] => []
+  | (k, .one v) :: t => .set k v :: mapActs t
+  | (k, .many vs) :: t => setlistActs k vs ++ mapActs t
+
+/-- `update(arg)`: every key of the argument is *replaced* -/
+def updateActs : Option Arg → List Act
+  | none => []
+  | some (.headers h) => (Hdr.keys h false).flatMap (fun k => setlistActs k (getlist h k))
+  | some (.multi m) => (m.map (·.1)).flatMap (fun k => setlistActs k (multiGetlist m k))
+  | some (.mapping m) => mapActs m
+  | some (.pairs ps) => ps.map (fun p => .set p.1 p.2)
+
+/-- `extend(arg)`: every pair of the argument is *appended* -/
+def extendActs (a : Option Arg) : List Act :=
+  match a with
+  | none => []
+  | some a => (iterMultiItems a).map (fun p => .add p.1 p.2)
+
+def unit (r : Spec × Except String Unit) : Spec × Except String Ret := (r.1, r.2.map (fun _ => Ret.none))
+
+/-- the abstract step of every public mutator: keyed mutators are sequences of atomic actions;
+index / slice mutators are the list operations themselves -/
+def step (l : Spec) : Op → Spec × Except String Ret
+  | .add k v => unit (seqUntil l [.add k v])
+  | .set k v => unit (seqUntil l [.set k v])
+  | .setitemKey k v => unit (seqUntil l [.set k v])
+  | .setlist k vs => unit (seqUntil l (setlistActs k vs))
+  | .setdefault k v =>
+    match getKey l k with
+    | .ok x => (l, .ok (.str x))
+    | .error _ =>
+      let r := seqUntil l [.set k v]
+      (r.1, match r.2 with | .ok _ => (getKey r.1 k).map Ret.str | .error e => .error e)
+  | .setlistdefault k vs =>
+    if contains l k then (l, .ok (.strs (getlist l k)))
+    else
+      let r := seqUntil l (setlistActs k vs)
+      (r.1, match r.2 with | .ok _ => .ok (.strs (getlist r.1 k)) | .error e => .error e)
+  | .extend a kw => unit (seqUntil l (extendActs a ++ (mapItems kw).map (fun p => .add p.1 p.2)))
+  | .update a kw => unit (seqUntil l (updateActs a ++ mapActs kw))
+  | .ior a => unit (seqUntil l (updateActs (some a)))
+  | .delitemKey k => unit (seqUntil l [.remove k])
+  | .remove k => unit (seqUntil l [.remove k])
+  | .popKey k d =>
+    match getKey l k with
+    | .ok v => ((seqUntil l [.remove k]).1, .ok (.str v))
+    | .error e => (l, match d with | some x => .ok (.str x) | none => .error e)
+  | .clear => ([], .ok .none)
+  -- positional access: Python list semantics on the pair list
+  | .setitemIdx i p => retUnit (setIdx l i p)
+  | .setitemSlice s ps => retUnit (setSliceOp l s ps)
+  | .delitemIdx i => retUnit (delIdx l i)
+  | .delitemSlice s => (delSlice l s, .ok .none)
+  | .popLast => let r := popIdx l (-1); (r.1, r.2.map Ret.pair)
+  | .popIdx i => let r := popIdx l i; (r.1, r.2.map Ret.pair)
+  | .popitem => let r := popIdx l (-1); (r.1, r.2.map Ret.pair)
+
+def run (l : Spec) : List Op → Spec
+  | [] => l
+  | op :: t => run (step l op).1 t
+
+/-! refinement lemmas -/
+
+theorem add_eq (l : HList) (k v : Str) : Hdr.add l k v = (Act.add k v).apply l := by
+  cases h : hasNL v <;> simp [Hdr.add, Act.apply, strHeaderValue, h]
+
+theorem set_eq (l : HList) (k v : Str) : Hdr.set l k v = (Act.set k v).apply l := by
+  cases hv : hasNL v with
+  | true => simp [Hdr.set, Act.apply, strHeaderValue, hv]
+  | false => rw [set_eq_spec l k v hv]; simp [Act.apply, hv]
+
+theorem seqUntil_single (l : Spec) (a : Act) : seqUntil l [a] = a.apply l := by
+  simp only [seqUntil]
+  cases a.apply l with
+  | mk l' r => cases r <;> rfl
+
+theorem seqUntil_append (l : Spec) (a b : List Act) :
+    seqUntil l (a ++ b) = Hdr.andThen (seqUntil l a) (fun l' => seqUntil l' b) := by
+  induction a generalizing l with
+  | nil => rfl
+  | cons x t ih =>
+    simp only [List.cons_append, seqUntil]
+    cases hx : x.apply l with
+    | mk l' res =>
+      cases res with
+      | ok _ => exact ih l'
+      | error e => rfl
+
+theorem addAll_eq (l : HList) (k : Str) (vs : List Str) :
+    Hdr.addAll l k vs = seqUntil l (vs.map (.add k)) := by
+  induction vs generalizing l with
+  | nil => rfl
+  | cons v t ih =>
+    simp only [Hdr.addAll, List.map_cons, seqUntil, add_eq]
+    cases hx : (Act.add k v).apply l with
+    | mk l' res =>
+      cases res with
+      | ok _ => exact ih l'
+      | error e => rfl
+
+theorem addPairs_eq (l : HList) (ps : List Pair) :
+    Hdr.addPairs l ps = seqUntil l (ps.map (fun p => .add p.1 p.2)) := by
+  induction ps generalizing l with
+  | nil => rfl
+  | cons p t ih =>
+    obtain ⟨k, v⟩ := p
+    simp only [Hdr.addPairs, List.map_cons, seqUntil, add_eq]
+    cases hx : (Act.add k v).apply l with
+    | mk l' res =>
+      cases res with
+      | ok _ => exact ih l'
+      | error e => rfl
+
+theorem setPairs_eq (l : HList) (ps : List Pair) :
+    Hdr.setPairs l ps = seqUntil l (ps.map (fun p => .set p.1 p.2)) := by
+  induction ps generalizing l with
+  | nil => rfl
+  | cons p t ih =>
+    obtain ⟨k, v⟩ := p
+    simp only [Hdr.setPairs, List.map_cons, seqUntil, set_eq]
+    cases hx : (Act.set k v).apply l with
+    | mk l' res =>
+      cases res with
+      | ok _ => exact ih l'
+      | error e => rfl
+
+theorem setlist_eq (l : HList) (k : Str) (vs : List Str) :
+    Hdr.setlist l k vs = seqUntil l (setlistActs k vs) := by
+  cases vs with
+  | nil => simp [Hdr.setlist, setlistActs, seqUntil, Act.apply, delKey]
+  | cons v t =>
+    simp only [Hdr.setlist, setlistActs, seqUntil, set_eq]
+    cases hx : (Act.set k v).apply l with
+    | mk l' res =>
+      cases res with
+      | ok _ => exact addAll_eq l' k t
+      | error e => rfl
+
+theorem updateMap_eq (l : HList) (m : MapArg) : Hdr.updateMap l m = seqUntil l (mapActs m) := by
+  induction m generalizing l with
+  | nil => rfl
+  | cons e t ih =>
+    obtain ⟨k, mv⟩ := e
+    cases mv with
+    | one v =>
+      simp only [Hdr.updateMap, mapActs, seqUntil, set_eq]
+      cases hx : (Act.set k v).apply l with
+      | mk l' res =>
+        cases res with
+        | ok _ => exact ih l'
+        | error e => rfl
+    | many vs =>
+      simp only [Hdr.updateMap, mapActs, seqUntil_append, setlist_eq]
+      cases hx : seqUntil l (setlistActs k vs) with
+      | mk l' res =>
+        cases res with
+        | ok _ => exact ih l'
+        | error e => rfl
+
+theorem updateKeys_eq (look : Str → List Str) (l : HList) (ks : List Str) :
+    Hdr.updateKeys look l ks = seqUntil l (ks.flatMap (fun k => setlistActs k (look k))) := by
+  induction ks generalizing l with
+  | nil => rfl
+  | cons k t ih =>
+    simp only [Hdr.updateKeys, List.flatMap_cons, seqUntil_append, setlist_eq]
+    cases hx : seqUntil l (setlistActs k (look k)) with
+    | mk l' res =>
+      cases res with
+      | ok _ => exact ih l'
+      | error e => rfl
+
+theorem updateHead_eq (l : HList) (a : Option Arg) : Hdr.updateHead l a = seqUntil l (updateActs a) := by
+  cases a with
+  | none => rfl
+  | some a =>
+    cases a with
+    | headers h => exact updateKeys_eq _ l _
+    | multi m => exact updateKeys_eq _ l _
+    | mapping m => exact updateMap_eq l m
+    | pairs ps => exact setPairs_eq l ps
+
+theorem extendHead_eq (l : HList) (a : Option Arg) : Hdr.extendHead l a = seqUntil l (extendActs a) := by
+  cases a with
+  | none => rfl
+  | some a => exact addPairs_eq l _
+
+/-- every public mutator of the concrete `Headers` model (loops, slice assignments, partial
+failure) is the abstract step -/
+theorem step_refines (l : HList) (op : Op) : Hdr.step l op = step l op := by
+  cases op with
+  | add k v => simp only [Hdr.step, step, seqUntil_single, add_eq, retUnit, unit]
+  | set k v => simp only [Hdr.step, step, seqUntil_single, set_eq, retUnit, unit]
+  | setitemKey k v => simp only [Hdr.step, step, seqUntil_single, set_eq, retUnit, unit]
+  | setlist k vs => simp [Hdr.step, step, setlist_eq, retUnit, unit]
+  | setdefault k v =>
+    simp only [Hdr.step, step, Hdr.setdefault]
+    cases getKey l k with
+    | ok x => rfl
+    | error e =>
+      simp only [seqUntil_single, set_eq]
+      cases (Act.set k v).apply l with
+      | mk l' r => cases r <;> rfl
+  | setlistdefault k vs =>
+    simp only [Hdr.step, step, Hdr.setlistdefault]
+    cases contains l k with
+    | true => rfl
+    | false =>
+      simp only [Bool.false_eq_true, if_false, setlist_eq]
+      cases seqUntil l (setlistActs k vs) with
+      | mk l' r => cases r <;> rfl
+  | extend a kw =>
+    simp only [Hdr.step, step, Hdr.extend, seqUntil_append, extendHead_eq, addPairs_eq, retUnit, unit]
+  | update a kw =>
+    simp only [Hdr.step, step, Hdr.update, seqUntil_append, updateHead_eq, updateMap_eq, retUnit, unit]
+  | ior a =>
+    simp only [Hdr.step, step, Hdr.update, updateHead_eq, updateMap_eq, retUnit, unit, mapActs]
+    cases seqUntil l (updateActs (some a)) with
+    | mk l' r => cases r <;> rfl
+  | delitemKey k => simp [Hdr.step, step, seqUntil_single, Act.apply, delKey, unit, Except.map]
+  | remove k => simp [Hdr.step, step, seqUntil_single, Act.apply, delKey, unit, Except.map]
+  | popKey k d =>
+    simp only [Hdr.step, step, Hdr.popKey]
+    cases getKey l k with
+    | ok v => simp [seqUntil_single, Act.apply, delKey, Except.map]
+    | error e => cases d <;> rfl
+  | clear => rfl
+  | setitemIdx i p => rfl
+  | setitemSlice s ps => rfl
+  | delitemIdx i => rfl
+  | delitemSlice s => rfl
+  | popLast => rfl
+  | popIdx i => rfl
+  | popitem => rfl
+
+theorem run_refines (l : HList) (ops : List Op) : Hdr.run l ops = run l ops := by
+  induction ops generalizing l with
+  | nil => rfl
+  | cons op t ih => simp only [Hdr.run, run, step_refines]; exact ih _
+
+end Wz.HdrSpec
